@@ -183,7 +183,7 @@ PROPS = {
                  "profile switches grayscale conversion off (so by C08 no gray<->colour move); sRGB without stripping does too; after a gray<->colour conversion no sRGB/iCCP chunk is left; postprocess only drops, "
                  "and only the five names under their conditions. preprocess_chunks, postprocess_chunks, srgb_rendering_intent and the iCCP framing are compared with the code on generated chunk lists and "
                  "profiles (recognised ids, other, zero id, short, undecodable, unknown method); the e2e oracle checks the property's clauses on gray-valued colour images.",
-        "note": "Inflate/deflate of the profile are parameters of the model (D1); the three CRC-identified known-bad profiles are modelled but not generated (no such profile available offline).",
+        "note": "Inflate/deflate of the profile are parameters of the model (D1); all four recognised profile IDs are generated, and the three ID-less profiles recognised by (CRC-32, length) are generated by forging the CRC (last four bytes solved from the register; CRC-32 is linear), together with one-bit neighbours that must not be recognised.",
         "technique": "Lean 4 proof (exhaustive case analysis of the decision logic) + exact correspondence + e2e oracle",
         "rule": "chunk lists with any of {sRGB, iCCP(recognised/other/zero-id/short/undecodable/unknown-method), both, neither, acTL} x strip policies x recoding x grayscale switch; e2e: gray-valued RGB(A) and other images",
     },
